@@ -19,6 +19,7 @@ import JV.Proofs.JsonParserNumber
 import JV.Proofs.JsonParserDepth
 import JV.Proofs.JsonParserString
 import JV.Proofs.JsonParserRefine
+import JV.Proofs.JsonParserSoundScalar
 namespace JV.Props.C02
 open JV Spec.Rfc8259
 
@@ -169,6 +170,41 @@ example : (run ⟨8, false, false⟩ [123, 34, 97, 34, 58, 91, 49, 44, 34, 120, 
 example : (parseText { comments := false, trailingComma := false, maxDepth := 8 }
     [32, 91, 13, 49, 46, 53, 13, 93, 13]).isSome = true := by decide
 example : (run ⟨8, false, false⟩ [32, 91, 13, 49, 46, 53, 13, 93, 13]).evs.reverse = [.beginArray, .frac [49, 46, 53], .endArray] := by decide
+
+/-- SOUNDNESS, for documents whose root is a literal or a number (the first character after the leading white space is none of
+    `"`, `[`, `{`), comments off, all inputs: whatever the parser model accepts, the RFC 8259 reference reads as a value, and (by
+    completeness) the events reported are the events of that value. So on these documents the model accepts EXACTLY the
+    texts of the grammar. Not covered: roots that are strings, arrays or objects (for strings the converse fails as stated:
+    the parser accepts a lone low surrogate escape and a high surrogate followed by any `\uXXXX`, the reference gives those
+    texts no value — DESIGN.md, C02 exclusions). -/
+theorem parse_sound_scalars (cfg : Cfg) (bs : Bytes) (hc : cfg.comments = false)
+    (hroot : ∀ c r, bs.dropWhile isWs = c :: r → c ≠ 34 ∧ c ≠ 91 ∧ c ≠ 123)
+    (h : accepted (run cfg bs) = true) :
+    ∃ v, parseText { comments := false, trailingComma := false, maxDepth := cfg.maxDepth } bs = some v ∧
+      (run cfg bs).evs.reverse.map eraseNoesc = eventsOf v := by
+  obtain ⟨v, hv⟩ := run_sound_scalar cfg hc bs hroot h
+  exact ⟨v, hv, (run_complete cfg bs v hv).2⟩
+
+/-- the two directions together on those documents -/
+theorem parse_exact_scalars (cfg : Cfg) (bs : Bytes) (hc : cfg.comments = false)
+    (hroot : ∀ c r, bs.dropWhile isWs = c :: r → c ≠ 34 ∧ c ≠ 91 ∧ c ≠ 123) :
+    accepted (run cfg bs) = true ↔
+      (parseText { comments := false, trailingComma := false, maxDepth := cfg.maxDepth } bs).isSome = true := by
+  constructor
+  · intro h
+    obtain ⟨v, hv⟩ := run_sound_scalar cfg hc bs hroot h
+    simp [hv]
+  · intro h
+    cases hv : parseText { comments := false, trailingComma := false, maxDepth := cfg.maxDepth } bs with
+    | none => simp [hv] at h
+    | some v => exact (run_complete cfg bs v hv).1
+
+-- the model refuses what the grammar refuses: "01", "1.", "-", "tru", "nul l", "1 2"
+example : accepted (run ⟨8, false, false⟩ [48, 49]) = false := by decide
+example : accepted (run ⟨8, false, false⟩ [49, 46]) = false := by decide
+example : accepted (run ⟨8, false, false⟩ [45]) = false := by decide
+example : accepted (run ⟨8, false, false⟩ [116, 114, 117]) = false := by decide
+example : accepted (run ⟨8, false, false⟩ [49, 32, 50]) = false := by decide
 end ParserRefinement
 
 /-! ### the option flags relax exactly one construct each (kernel-evaluated instances, all four flag pairs) -/
